@@ -246,11 +246,11 @@ func wrapBranch(name string, message profile.Message, branch BranchRegoResult, m
 		}
 	}
 
-	acc = append(acc, fmt.Sprintf("  %s := error(\"%s\",%s, message ,[%s])", matchesVariable, name, mappingVariable, strings.Join(resultBindings, ",")))
+	acc = append(acc, fmt.Sprintf("  %s := error(%s,%s, message ,[%s])", matchesVariable, misc.RegoString(name), mappingVariable, strings.Join(resultBindings, ",")))
 	return acc
 }
 
+// double quotes are shown as single quotes, everything else is escaped so the text is the content of a Rego string
 func sanitizedMessage(s string) string {
-	result := strings.ReplaceAll(s, "\n", "\\n")
-	return strings.ReplaceAll(result, "\"", "'")
+	return misc.RegoStringContent(strings.ReplaceAll(s, "\"", "'"))
 }
